@@ -815,14 +815,12 @@ func (r *run) runSrv() {
 		}
 		return sn.srv.RelayTxn(tx)
 	}
-	// entropy (server ids, dBFT block nonces) and the discovery's dial pause
+	// entropy (server ids, dBFT block nonces)
 	old := crand.Reader
 	dr := &detRand{}
 	copy(dr.key[:], "verif-srvsim-entropy-0123456789abcdef")
 	crand.Reader = dr
 	defer func() { crand.Reader = old }()
-	oldWait := network.VerifSetDiscoveryMaxWait(1)
-	defer network.VerifSetDiscoveryMaxWait(oldWait)
 	tmp, err := os.MkdirTemp("", "verif-srv-*")
 	if err != nil {
 		sim.Harnessf("mkdtemp: %v", err)
